@@ -457,3 +457,100 @@ def run_signpair(ctx, rep, cfg="Q", rule="SIGN-PAIR", select=None, floor=10):
             rep.classify(rule, key, reviewed, loc=loc,
                          detail="(seconds, nanoseconds) = (%s, %s) not shown sign-consistent: %s" % (a, b, verdict))
     rep.floor(rule + " sites", n, floor)
+
+
+# ------------------------------------------------------------------------------------------------------------------
+SIGN_READS = ("is_negative", "is_positive", "signum", "checked_neg", "is_zero")
+CMP_OPS = ("Eq", "Ne", "Lt", "Le", "Gt", "Ge")
+ABS_NAMES = ("abs", "unsigned_abs", "wrapping_abs", "checked_abs")
+
+
+def run_loneabs(ctx, rep, cfg="Q", rule="LONE-ABS", floor=8):
+    """abs() of ONE component of a (seconds, nanoseconds) carrier discards sign information that the other component may
+    not carry (-0.5s has seconds == 0): every such site must be accompanied, in the same function, by a read of the
+    whole value's sign, by abs of the other component as well, or by a test of the component's own / the seconds
+    component's sign."""
+    rep.rule(rule, "wherever abs/unsigned_abs is applied to a single component (seconds or nanoseconds) of a SignedDuration, "
+                   "Timestamp or offset-like carrier, the same function also reads the sign of the whole value (is_negative, "
+                   "is_positive, signum, checked_neg, is_zero on the carrier), takes the absolute value of the other component "
+                   "too, or compares that component / the seconds component with a constant: the sign of a two-component value "
+                   "cannot be recovered from one component (a sub-second negative duration has seconds == 0)")
+    prog = ctx.prog(cfg)
+    n = 0
+    for f in sorted(prog.fns.values(), key=lambda f: f.key):
+        if f.crate != "jiff":
+            continue
+        sites = [(bi, b["term"]) for bi, b in enumerate(f.blocks) if b["term"]["t"] == "call" and b["term"].get("args")
+                 and b["term"].get("path", "").rsplit("::", 1)[-1] in ABS_NAMES]
+        if not sites:
+            continue
+        T = Terms(f)
+        found = []
+        for bi, t in sites:
+            sg = _sig(T.operand(t["args"][0], pos=(bi, "term")))
+            if sg and sg[0] == "pair":
+                found.append((bi, t, sg))
+        if not found:
+            continue
+        # what the function reads about signs
+        whole, comp_tests, abs_comps = set(), set(), set()
+        for bi, b in enumerate(f.blocks):
+            t = b["term"]
+            if t["t"] == "call" and t.get("args"):
+                name = t.get("path", "").rsplit("::", 1)[-1]
+                a0 = T.operand(t["args"][0], pos=(bi, "term"))
+                if name in SIGN_READS:
+                    whole.add(_root(a0))
+                    sg0 = _sig(a0)
+                    if sg0 and sg0[0] == "pair":
+                        comp_tests.add((_root(sg0[1]), sg0[2]))
+                if name in ABS_NAMES:
+                    sg0 = _sig(a0)
+                    if sg0 and sg0[0] == "pair":
+                        abs_comps.add((_root(sg0[1]), sg0[2]))
+                if name in ("lt", "le", "gt", "ge", "eq", "ne", "cmp", "partial_cmp"):
+                    for a in t["args"][:2]:
+                        ta = T.operand(a, pos=(bi, "term"))
+                        whole.add(_root(ta))
+                        sga = _sig(ta)
+                        if sga and sga[0] == "pair":
+                            comp_tests.add((_root(sga[1]), sga[2]))
+            for si, s in enumerate(b["st"]):
+                if s["s"] == "=" and s["rv"]["k"] == "bin" and s["rv"]["op"] in CMP_OPS:
+                    for a in (s["rv"]["a"], s["rv"]["b"]):
+                        sga = _sig(T.operand(a, pos=(bi, si)))
+                        if sga and sga[0] == "pair":
+                            comp_tests.add((_root(sga[1]), sga[2]))
+        ords = {}
+        for bi, t, sg in found:
+            n += 1
+            x, comp = _root(sg[1]), sg[2]
+            ords[comp] = ords.get(comp, 0) + 1
+            key = norm_key("%s | abs(%s component)#%d" % (f.key, {"s": "seconds", "n": "nanoseconds"}[comp], ords[comp]))
+            loc = "%s:%s" % (f.file, (t.get("span") or {}).get("line"))
+            other = "n" if comp == "s" else "s"
+            if x in whole:
+                rep.ok(rule, key, how="the whole value's sign is read in the same function", loc=loc)
+            elif (x, other) in abs_comps:
+                rep.ok(rule, key, how="absolute value of both components (pair-wise abs)", loc=loc)
+            elif (x, comp) in comp_tests or (x, "s") in comp_tests:
+                rep.ok(rule, key, how="the sign of the %s component is tested in the same function" % ("same" if (x, comp) in comp_tests else "seconds"), loc=loc)
+            else:
+                rep.violation(rule, key, "abs() of the %s component of a signed value, but the function never reads the sign of the "
+                              "whole value nor of the seconds component: the sign of a value with seconds == 0 is lost"
+                              % {"s": "seconds", "n": "nanoseconds"}[comp], loc)
+    rep.floor(rule + " sites", n, floor)
+
+
+def _root(t):
+    """the carrier a term denotes, through clones, derefs, variants and try payloads"""
+    for _ in range(12):
+        if t[0] in ("cast", "try", "variant"):
+            t = t[1]
+        elif t[0] == "field" and t[2] in ("0",):
+            t = t[1]
+        elif t[0] == "call" and t[2] and t[1].endswith(("::clone", "::deref", "::borrow", "::as_ref", "::into", "::from")):
+            t = t[2][0]
+        else:
+            break
+    return t
